@@ -83,7 +83,7 @@ Definition op_of (c : nat) : op :=
   | 0 => OpGet (Some false) | 1 => OpGet (Some true) | 2 => OpGet None
   | 3 => OpRetrieve (Some false) | 4 => OpRetrieve (Some true) | 5 => OpRetrieve None
   | 6 => OpCall false | 7 => OpCall true | 8 => OpRedecorate
-  | 9 => OpDrop false | _ => OpDrop true
+  | 9 => OpDrop false | 10 => OpDrop true | 11 => OpConnect false | _ => OpConnect true
   end%nat.
 Definition kind_of (c : nat) : dkind := match c with 0 => DPok | 1 => DFunc | _ => DWrap end%nat.
 Fixpoint Nlist_eqb (a b : list N) : bool :=
@@ -470,8 +470,16 @@ def _wdeco(func, *args, **kwargs):
     return func(*args, **kwargs)
 
 
-HKINDS = ['pok', 'func', 'fwrap', 'swrap', 'wwrap']
-MODEL_KIND = {'pok': 0, 'func': 1, 'fwrap': 2, 'swrap': 2, 'wwrap': 2}
+HKINDS = ['pok', 'func', 'fwrap', 'swrap', 'wwrap', 'iw', 'is', 'if']
+MODEL_KIND = {'pok': 0, 'func': 1, 'fwrap': 2, 'swrap': 2, 'wwrap': 2, 'iw': 2, 'is': 2, 'if': 2}
+# forwards_to_ivar('target') under wrapper_decorator / decorator / emulate=True: the
+# forwarded-to attribute only exists after `conn`; before it a retrieval fails
+# (sigtools.signature) or silently falls back (inspect.signature)
+IVAR = ('iw', 'is', 'if')
+
+
+def _target(x, y=1):
+    return (x, y)
 
 
 def build_classes(kind):
@@ -501,6 +509,23 @@ def build_classes(kind):
             @_deco
             def m(self, a):
                 return (self, a)
+    elif kind == 'iw':
+        class A(object):
+            @_wdeco
+            @specifiers.forwards_to_ivar('target')
+            def m(self, *args, **kwargs):
+                return (self, self.target(*args, **kwargs))
+    elif kind == 'is':
+        class A(object):
+            @_deco
+            @specifiers.forwards_to_ivar('target')
+            def m(self, *args, **kwargs):
+                return (self, self.target(*args, **kwargs))
+    elif kind == 'if':
+        class A(object):
+            @specifiers.forwards_to_ivar('target', emulate=True)
+            def m(self, *args, **kwargs):
+                return (self, self.target(*args, **kwargs))
     else:
         class A(object):
             @_wdeco
@@ -542,19 +567,57 @@ def redecorate(A, ver):
 _FRESH = {}
 
 
-def fresh_sig(kind, ver, level):
-    """the cache-less specification realised on the implementation: a freshly
-    built class, decorated `ver` times before any access"""
-    key = (kind, ver, level)
+def isig_str(obj):
+    try:
+        return str(inspect.signature(obj))
+    except Exception as e:
+        return 'EXC:' + type(e).__name__
+
+
+def _fresh(kind, ver, level, connected):
+    key = (kind, ver, level, connected)
     if key not in _FRESH:
         A, B = build_classes(kind)
         for v in range(1, ver + 1):
             redecorate(A, v)
-        _FRESH[key] = sig_str(A().m if level == 'inst' else A.m)
+        i = A()
+        if connected and kind in IVAR:
+            i.target = _target
+        obj = i.m if level == 'inst' else A.m
+        _FRESH[key] = (sig_str(obj), isig_str(obj))
+        del obj, i
+        specifiers.as_forged.currently_computing.clear()
     return _FRESH[key]
 
 
-OPS = ['get0', 'get1', 'getC', 'ret0', 'ret1', 'retC', 'call0', 'call1', 'redec', 'drop0', 'drop1']
+def fresh_sig(kind, ver, level, connected=True):
+    """the cache-less specification realised on the implementation: a freshly
+    built class, decorated `ver` times before any access (sigtools.signature)"""
+    return _fresh(kind, ver, level, connected)[0]
+
+
+def fresh_isig(kind, ver, level, connected=True):
+    return _fresh(kind, ver, level, connected)[1]
+
+
+def bound_self(obj):
+    for path in (('__self__',), ('__wrapped__', '__self__'), ('func', '__self__')):
+        x = obj
+        try:
+            for a in path:
+                x = getattr(x, a)
+            return x
+        except AttributeError:
+            continue
+    return None
+
+
+OPS = ['get0', 'get1', 'getC', 'ret0', 'ret1', 'retC', 'call0', 'call1', 'redec', 'drop0', 'drop1',
+       'conn0', 'conn1']
+
+
+def n_ops(kind):
+    return 13 if kind in IVAR else 11
 
 
 def run_history(kind, hist):
@@ -568,17 +631,32 @@ def run_history(kind, hist):
     codes = []
     finds = []
     desc = A.__dict__['m']
+    connected = [kind not in IVAR, kind not in IVAR]
+    guard = specifiers.as_forged.currently_computing
 
     def code(tag, ok, v, rec=True):
         return tag * 1000 + (100 if ok else 0) + (10 if rec else 0) + min(v, 9)
 
-    def check_sig(s, got, step):
-        want = fresh_sig(kind, ver, 'inst')
+    def check_sig(s, got, step, which=''):
+        want = fresh_sig(kind, ver, 'inst', connected[s])
         if got != want:
             stale = (kind == 'pok' and cached_ver[s] is not None and cached_ver[s] != ver
                      and got == fresh_sig(kind, cached_ver[s], 'inst'))
             finds.append(('C18:stale-cache' if stale else 'C18:history',
-                          'step %d (%s): signature %s, a fresh retrieval gives %s' % (step, OPS[hist[step]], got, want)))
+                          'step %d (%s): signature %s%s, a fresh retrieval gives %s' % (
+                              step, OPS[hist[step]], which, got, want)))
+
+    def check_isig(s, obj, got, step, which=''):
+        if kind == 'func':
+            return                      # a plain bound method: inspect does not know the forger
+        ig = isig_str(obj)
+        want = fresh_isig(kind, ver, 'inst', connected[s])
+        if ig != want and not (kind == 'pok' and ig == got):
+            finds.append(('C18:history', 'step %d (%s): inspect.signature %s%s, on a fresh object %s' % (
+                step, OPS[hist[step]], which, ig, want)))
+        elif connected[s] and ig != got:
+            finds.append(('C18:history', 'step %d: inspect.signature %s%s but sigtools.signature %s' % (
+                step, which, ig, got)))
 
     for step, o in enumerate(hist):
         name = OPS[o]
@@ -587,14 +665,19 @@ def run_history(kind, hist):
             obj = getattr(inst[s], 'm')
             if name.startswith('get'):
                 held[s].append(obj)
-            try:
-                r = obj(7)
-                ok = r[0] is inst[s] and r[1] == 7
-                whom = 'the other instance' if r[0] is inst[1 - s] else 'another object'
-            except Exception as e:
-                r = None
-                ok = False
-                whom = 'nothing usable: calling it raises %s(%s)' % (type(e).__name__, e)
+            if connected[s]:
+                try:
+                    r = obj(7)
+                    ok = r[0] is inst[s] and r[1] in (7, (7, 1))
+                    whom = 'the other instance' if r[0] is inst[1 - s] else 'another object'
+                except Exception as e:
+                    r = None
+                    ok = False
+                    whom = 'nothing usable: calling it raises %s(%s)' % (type(e).__name__, e)
+            else:                       # the forwarded-to attribute does not exist yet: do not call
+                r = bound_self(obj)
+                ok = r is inst[s]
+                whom = 'the other instance' if r is inst[1 - s] else 'another object'
             if not ok:
                 finds.append(('C18:binding', 'step %d (%s): the object returned for instance %d is bound to %s'
                               % (step, name, s, whom)))
@@ -606,13 +689,14 @@ def run_history(kind, hist):
             else:
                 got, gver = sig_info(obj)
                 check_sig(s, got, step)
-                if kind in ('pok', 'fwrap', 'swrap', 'wwrap'):
-                    try:
-                        ig = str(inspect.signature(obj))
-                    except Exception as e:
-                        ig = 'EXC:' + type(e).__name__
-                    if ig != got:
-                        finds.append(('C18:history', 'step %d: inspect.signature %s but sigtools.signature %s' % (step, ig, got)))
+                check_isig(s, obj, got, step)
+                if name.startswith('ret') and held[s]:
+                    # the same question asked of an object obtained earlier and kept
+                    kept = held[s][-1]
+                    kgot, _ = sig_info(kept)
+                    check_sig(s, kgot, step, 'of the object kept from an earlier get ')
+                    check_isig(s, kept, kgot, step, 'of the object kept from an earlier get ')
+                    del kept
                 codes.append(code(1 if name.startswith('get') else 2, ok, gver))
             del obj, r
         elif name in ('getC', 'retC'):
@@ -627,6 +711,11 @@ def run_history(kind, hist):
             ver += 1
             redecorate(A, ver)
             codes.append(code(4, True, 0))
+        elif name in ('conn0', 'conn1'):
+            s = int(name[-1])
+            inst[s].target = _target
+            connected[s] = True
+            codes.append(code(6, True, 0))
         else:
             s = int(name[-1])
             wr = weakref.ref(inst[s])
@@ -651,6 +740,11 @@ def run_history(kind, hist):
             inst[s] = (A, B)[s]()
             touched[s] = False
             cached_ver[s] = None
+            connected[s] = kind not in IVAR
+        if guard:
+            finds.append(('C18:guard-leak', 'step %d (%s): specifiers.as_forged.currently_computing still holds %d object(s) '
+                          'after the operation returned' % (step, name, len(guard))))
+    guard.clear()
     return codes, finds
 
 
@@ -658,14 +752,25 @@ def histories(ctx):
     rng = ctx.rng('hist')
     n = len(OPS)
     out = []
-    full = {'pok': 4, 'func': 3, 'fwrap': 3, 'swrap': 3, 'wwrap': 3}
+    full = {'pok': 4, 'func': 3, 'fwrap': 3, 'swrap': 3, 'wwrap': 3, 'iw': 2, 'is': 2, 'if': 2}
     if not ctx.quick:
-        full = {'pok': 4, 'func': 4, 'fwrap': 3, 'swrap': 3, 'wwrap': 3}
+        full = {'pok': 4, 'func': 4, 'fwrap': 3, 'swrap': 3, 'wwrap': 3, 'iw': 3, 'is': 3, 'if': 3}
     for kind in HKINDS:
+        n = n_ops(kind)
         for L in range(1, full[kind] + 1):
             for h in itertools.product(range(n), repeat=L):
                 out.append((kind, h))
-        extra = {'pok': 600, 'func': 300, 'fwrap': 150, 'swrap': 150, 'wwrap': 150}[kind]
+        if kind in IVAR:
+            # every early (failing / falling back) retrieval followed by connect, a later
+            # retrieval, and the drop: [get|ret]s, conn s?, [get|ret]s?, drop s
+            for s_ in (0, 1):
+                for early in (s_, 3 + s_):
+                    for conn in ((), (11 + s_,)):
+                        for late in ((), (s_,), (3 + s_,)):
+                            out.append((kind, (early,) + conn + late + (9 + s_,)))
+                            out.append((kind, (s_, early) + conn + late + (9 + s_,)))
+        extra = {'pok': 300, 'func': 200, 'fwrap': 100, 'swrap': 100, 'wwrap': 100,
+                 'iw': 250, 'is': 250, 'if': 250}[kind]
         if not ctx.quick:
             extra *= 25
         for _ in range(extra):
